@@ -140,6 +140,14 @@ theorem memo_bounded_lookup (A : Alg F) (p : Prop_ F) (hm : 1 ≤ p.memoize)
     (hl : p.times.length ≤ p.memoize) (t : Int) : (lookup A p t).1.times.length ≤ p.memoize :=
   lookup_length p hm hl t
 
+/-- **The memo never holds more than `max 3 memoize` propagators, after every sequence of queries** (the
+one-step bound `memo_bounded_lookup` lifted over whole histories, any order and any `t_start`). -/
+theorem memo_bounded (A : Alg F) (cte : Bool) (memoize : Nat) (qs : List (Int × Int)) :
+    (calls A (init A cte memoize) qs).1.times.length ≤ max 3 memoize := by
+  have h := (calls_binv A qs _ (init_binv A cte memoize)).len
+  rw [calls_memoize] at h
+  exact h
+
 /-- **The memoised times stay strictly increasing** after every sequence of queries — any order, repeated,
 decreasing, negative times, any `t_start`, evictions included — for every evolution algebra (no flow law is
 needed): `_insert` keeps the insertion index equal to `searchsorted` of what is left while it evicts, and
